@@ -41,10 +41,10 @@ func TestC10(t *testing.T) {
 		// level 1 is ~30x cheaper than a DB history: run a multiple of the requested count
 		restore := scaleRapidChecks(8)
 		defer restore()
-		rapid.Check(t, func(t *rapid.T) { c10IndexCase(t, st) })
+		checkCases(t, st, func(t *rapid.T) { c10IndexCase(t, st) })
 	})
 	t.Run("db", func(t *testing.T) {
-		rapid.Check(t, func(t *rapid.T) {
+		checkCases(t, st, func(t *rapid.T) {
 			runHistoryCase(t, "C10", c10Profile, func(r *kvh.Runner) bool { return r.F.IterNonTrivial > 0 })
 		})
 	})
